@@ -160,6 +160,11 @@ def codonsOf : List Char → List (List Char)
 def translation (id : Nat) (s : List Char) : Option (List Char) :=
   (codonsOf s).mapM (aa id)
 
+/-- for a string over arbitrary letters: the complete in-frame triplets of LETTERS that are A/C/G/T codons give
+their residue; a complete triplet that holds any other letter (N, U, a gap, a letter outside ASCII) gives nothing -/
+def translationAny (id : Nat) (s : List Char) : List Char :=
+  (codonsOf s).filterMap (aa id)
+
 def starts (id : Nat) : List (List Char) := match code? id with | some c => c.starts | none => []
 def stops (id : Nat) : List (List Char) := match code? id with | some c => c.stops | none => []
 
